@@ -28,7 +28,7 @@ func (c10) Info(t core.Tier) core.Info {
 		Level: "exploration",
 		Rule: "each case = one generated record schema (nestings of structs, slices, pointers to depth 3; per field one of the tag configurations none / zog / json+form+query+env / zog+json+form / query only / zog+env; IssuePath options on some tests) x 4 failure-biased records x every front end that can express it (Go map, zjson, zhttp JSON, form, query, env) + Validate; plus random schemas of every kind through Go maps. " +
 			"oracle: (1) structural invariants of every returned map: every issue exactly once under the key equal to its Path ($root for the empty path), $first holds exactly one issue which is element 0 of the list under its own path, no empty lists, nil iff no issue; " +
-			"(2) the multiset of issue paths == reference paths built from the documented key priority (source tag, else zog tag, else schema key; Validate: zog tag, else schema key), '.'-joined, [i] for slice positions, IssuePath override; (3) SanitizeMap / SanitizeList / SanitizeMapAndCollect return the same keys and order carrying only the messages. " +
+			"(2) the multiset of (path, code, type) == reference with paths built from the documented key priority (source tag, else zog tag, else schema key; Validate: zog tag, else schema key), '.'-joined, [i] for slice positions, IssuePath override; (3) SanitizeMap / SanitizeList / SanitizeMapAndCollect return the same keys and order carrying only the messages. " +
 			"non-trivial: map with >= 2 keys besides $first, or a nested / tagged / overridden path; distinct by (schema, record, front end).",
 		Assumptions: commonAssumptions,
 		MinDistinct: 50,
@@ -168,10 +168,10 @@ func c10Check(c *core.Ctx, n *spec.Node, o *run.Outcome, exp *ref.Result, alt *r
 	if exp != nil && exp.Unknown == "" {
 		var want, got []string
 		for _, x := range exp.Issues {
-			want = append(want, x.Path+"|"+x.Code)
+			want = append(want, x.Path+"|"+x.Code+"|"+x.Dtype)
 		}
 		for _, ci := range o.Issues {
-			got = append(got, ci.Path+"|"+ci.Code)
+			got = append(got, ci.Path+"|"+ci.Code+"|"+ci.Dtype)
 		}
 		sort.Strings(want)
 		sort.Strings(got)
@@ -181,14 +181,14 @@ func c10Check(c *core.Ctx, n *spec.Node, o *run.Outcome, exp *ref.Result, alt *r
 				// narrow class: the top-level JSON object {} is handed over as a nil provider, which cannot carry the json tag
 				var w2 []string
 				for _, x := range alt.Issues {
-					w2 = append(w2, x.Path+"|"+x.Code)
+					w2 = append(w2, x.Path+"|"+x.Code+"|"+x.Dtype)
 				}
 				sort.Strings(w2)
 				if a2, b2 := obs.MultisetDiff(w2, got); len(a2) == 0 && len(b2) == 0 {
 					sig = "issue-paths|top-level-empty-json-object|json-tag-ignored-zog-tag-or-schema-key-used"
 				}
 			}
-			c.Violation(sig, detail(map[string]any{"expected(path|code)": want, "observed(path|code)": got, "issues": issuesText(o)}))
+			c.Violation(sig, detail(map[string]any{"expected(path|code|type)": want, "observed(path|code|type)": got, "issues": issuesText(o)}))
 			return false
 		}
 	}
